@@ -188,6 +188,9 @@ Definition tangent_weight_matrix (nb : neighbors) (N d : Z) : res :=
     local_gram nb N idx k ;;
     blk 222 ((d + 1) - d) d (d + 1) ;;                        (* G.rightCols(d) *)
     blk 223 (k - d) d k ;;                                    (* solver.eigenvectors().rightCols(d), k x k *)
+    forZ_from 1 (d + 1) (fun i =>                             (* F51: modified Gram-Schmidt, i = 1 .. G.cols() - 1 *)
+      forZ i (fun j => chk 224 i (d + 1) ;; chk 225 j (d + 1)) ;;   (* G.col(i).dot(G.col(j)), G.col(i) -= r G.col(j) *)
+      chk 224 i (d + 1)) ;;                                   (* G.col(i) /= G.col(i).norm() *)
     local_triplets nb N idx k).
 
 (* HLLE: column written for the pair (j, j+p) *)
@@ -696,7 +699,7 @@ Definition ms_sweep_step (improve : Z -> option Z) (e : Z) : option Z := improve
  111-116 eigendecomposition.hpp:95-137 randomized: Y.col(i), Y.col(j), Y.col(k), (Y*V).rightCols/leftCols
  121,122 methods/{isomap,multidimensional_scaling,kernel_pca,landmark_*,diffusion_map}.hpp  first.col(i), second(i), i < d
  200-211 locally_linear.hpp linear_weight_matrix: neighbors[0], begin[idx], neighbors[idx][i], dots[i], gram(i,j), weights[i], triplets
- 220-223 locally_linear.hpp tangent_weight_matrix: G.col(0), G.rightCols(d), eigenvectors().rightCols(d) (k x k)
+ 220-225 locally_linear.hpp tangent_weight_matrix: G.col(0), G.rightCols(d), eigenvectors().rightCols(d) (k x k), Gram-Schmidt G.col(i) / G.col(j) (F51)
  230-239 locally_linear.hpp hessian_weight_matrix: Yi.col(ct+p+1+d) (F6), Yi.block, rightCols(d) (k x k), Yi.rightCols(dp)
  240-245 laplacian_eigenmaps.hpp compute_laplacian: D(idx), D(nb[i]), triplets
  250-255 routines/isomap.hpp: neighbors[min_item][i], s[w], f[w], shortest(k, w), landmarks[k]
